@@ -129,6 +129,14 @@ def gen_cases(tier, seed):
                     if wdw['name'] == 'submission-error-path':
                         sp['plan'] = {'faults': [{'at': 't0/cb:on_queued:s1#0', 'phase': 'before', 'kind': 'exc', 'tag': 'FAULT-q'}]}
                     cases.append(sp)
+                    # the same window with a slow on_done: the first announcer is held inside a subscriber's on_done (parked
+                    # until the process is quiescent) so that a second announce_done overlaps the first one's callbacks
+                    sp2 = copy.deepcopy(sp)
+                    sp2['seed'] = rng.randrange(1 << 30)
+                    sp2['yield']['window']['wait'] = 0.05
+                    sp2.setdefault('plan', {})['gate'] = {'match': '/cb:on_done', 'phase': 'before', 'count': rng.choice([1, 2])}
+                    sp2['family'] = 'window-slow-on_done'
+                    cases.append(sp2)
     rng.shuffle(cases)
     return cases
 
